@@ -64,12 +64,12 @@ Definition int16 (s : ustring) : option N :=
             | [] => s1
             end in
   match s2 with
-  | 48 :: x :: r =>
-      if (x =? 120) || (x =? 88) then
+  | c0 :: x :: r =>
+      if (c0 =? 48) && ((x =? 120) || (x =? 88)) then
         (* 0x / 0X prefix, then at most one underscore, then digits *)
         match r with
-        | 95 :: r' => hex_digits r' false false 0
-        | _ => hex_digits r false false 0
+        | c2 :: r' => if c2 =? 95 then hex_digits r' false false 0 else hex_digits r false false 0
+        | [] => hex_digits r false false 0
         end
       else hex_digits s2 false false 0
   | _ => hex_digits s2 false false 0
